@@ -118,8 +118,15 @@ INV_STRATA = gen.ROT_STRATA + ["gimbal_0_near_axisangle", "gimbal_pi_near_axisan
 
 def workload(ctx):
     rng = ctx.rng(1)
+    prev = None
     for i in range(ctx.n(1200, 15000)):
-        yield "build", {"a": [_angle(rng, i + j) for j in range(3)],
+        a = [_angle(rng, i + j) for j in range(3)]
+        # histories, not just isolated calls: each argument keeps its previous value with
+        # probability 0.35, so consecutive calls differ in one, two or all three arguments
+        if prev is not None:
+            a = [prev[j] if rng.random() < 0.35 else a[j] for j in range(3)]
+        prev = a
+        yield "build", {"a": a,
                         "in_range": [float(x) for x in rng.uniform(0, TWO_PI, 3)],
                         "rod": [float(x) for x in rng.normal(size=3) * 10 ** rng.uniform(-9, 3)],
                         "w_deg": float(rng.uniform(-720, 720))}
